@@ -2,6 +2,7 @@
 from vf.core import Gen
 
 META = dict(
+    technique='solver-based bounded symbolic execution of the real code (CrossHair + z3), counterexample replay; plus AST->z3 reading of SlurmWorker option handling (refuses when the shape is unknown)',
     functions_encoded=["pydra.workers.slurm.SlurmWorker.run / _poll_job / _verify_exit_code / _prepare_runscripts",
                        "pydra.engine.result.save (job record for the batch script)"],
     stubs=["vf/hl/slurmh.py: scripted scheduler (read_and_display_async as seen from pydra.workers.base), asyncio.sleep as seen from "
